@@ -6,3 +6,5 @@ func verifC10NativeMulti(lab string, ord []int) {}
 
 func verifC14NativeActionDir() {}
 func verifC14Root() string      { return "/r" }
+
+func verifC02NativeJobOrder(src string) {}
